@@ -848,4 +848,44 @@ theorem C08_lcc_reproject_within (c : LccC ℝ) (hk : c.sr.k0 ≠ 0)
           mul_le_mul hdR (abs_cos_le_one _) (abs_nonneg _) (by positivity)
       _ = _ := by ring
 
+/-! ## ellipsoidal transverse Mercator on the central meridian -/
+
+/-- **tmerc_ell_central_meridian_inv** (ellipsoidal TM / UTM, positions ON the central meridian, no convergence
+hypothesis): there the truncated series have no truncation error (`al = 0`), the forward is
+`(x0, k0·(a·mlfn φ − ml0) + y0)`, the inverse's footpoint iteration runs at `con = mlfn φ` exactly, converges within its
+7 updates, and the result is `(λ₀, φ')` with `|φ' − φ| ≤ 1.1e-12 rad` — for `|φ| ≤ 1.5`, `a > 0`, `k0 ≠ 0`, any `ml0`,
+`x0`, `y0`, `e0` dominating the series by a factor 100 and `|mlfn φ − φ| ≤ 1`. -/
+theorem C08_tmerc_ell_central_meridian_inv (c : TmercC ℝ) (hs : c.sr.sphere = false) (ha : 0 < c.sr.a) (hk : c.sr.k0 ≠ 0)
+    (h0 : 0 < c.e0) (hdom : 100 * (2 * |c.e1| + 4 * |c.e2| + 6 * |c.e3|) ≤ c.e0) (lat : ℝ) (hlat : |lat| ≤ 1.5)
+    (hcp : |mlfn c.e0 c.e1 c.e2 c.e3 lat - lat| ≤ 1) (hl0 : |c.sr.long0| ≤ sPi) :
+    ∃ lat', (fwdTmerc c c.sr.long0 lat).bind (fun q => invTmerc c q.1 q.2) = .ok (c.sr.long0, lat') ∧
+      |lat' - lat| ≤ 1.1e-12 := by
+  have hpi : (3.14 : ℝ) < π := pi_gt_d2
+  obtain ⟨r, hr, hb⟩ := C08_tmerc_footpoint_converges c h0 hdom (mlfn c.e0 c.e1 c.e2 c.e3 lat) lat rfl hcp
+  have hrlt : |r| < π / 2 := by
+    have := abs_sub_abs_le_abs_sub r lat
+    linarith
+  refine ⟨r, ?_, hb⟩
+  have hz : (0 : ℝ) ^ (2 : ℝ) = 0 := Real.zero_rpow two_ne_zero
+  have hadj0 : adjustLon (0 : ℝ) = 0 := adjustLon_id (by rw [abs_zero]; exact sPi_pos.le)
+  -- the forward on the central meridian
+  have hf : fwdTmerc c c.sr.long0 lat = .ok (c.sr.x0, c.sr.k0 * (c.sr.a * mlfn c.e0 c.e1 c.e2 c.e3 lat - c.ml0) + c.sr.y0) := by
+    simp only [fwdTmerc, hs, Bool.false_eq_true, if_false, sub_self, hadj0, mul_zero, pow_real, lit_two, hz,
+      zero_div, zero_mul, add_zero, zero_add]
+  have hcon : (c.ml0 + (c.sr.k0 * (c.sr.a * mlfn c.e0 c.e1 c.e2 c.e3 lat - c.ml0) + c.sr.y0 - c.sr.y0) / c.sr.k0) / c.sr.a
+      = mlfn c.e0 c.e1 c.e2 c.e3 lat := by
+    field_simp; ring
+  rw [hf]
+  simp only [Except.bind, invTmerc, hs, Bool.false_eq_true, if_false, bind, pure, Except.pure, hcon, hr, sub_self,
+    lt_real, abs_real, halfPi_real, hrlt, decide_true, if_true, zero_div, pow_real, lit_two, hz, mul_zero, zero_mul,
+    sub_zero, add_zero, adjustLon_id hl0]
+
+/-- non-vacuity of the hypotheses of `C08_tmerc_ell_central_meridian_inv` (degenerate series coefficients) -/
+example : ∃ (c : TmercC ℝ) (lat : ℝ), c.sr.sphere = false ∧ 0 < c.sr.a ∧ c.sr.k0 ≠ 0 ∧ 0 < c.e0 ∧
+    100 * (2 * |c.e1| + 4 * |c.e2| + 6 * |c.e3|) ≤ c.e0 ∧ |lat| ≤ 1.5 ∧
+    |mlfn c.e0 c.e1 c.e2 c.e3 lat - lat| ≤ 1 ∧ |c.sr.long0| ≤ sPi :=
+  ⟨⟨{ (default : SR ℝ) with sphere := false, a := 6378137, k0 := 0.9996, long0 := 0 }, 1, 0, 0, 0, 0⟩, 0.5,
+    rfl, by norm_num, by norm_num, by norm_num, by norm_num, by norm_num [abs_of_pos],
+    by simp [mlfn], by simp [sPi_pos.le]⟩
+
 end GeomV.C08
